@@ -179,6 +179,30 @@ func TestC05(t *testing.T) {
 				}
 			}
 		}
+		// 2c. complete position x byte sweep (every truncation, 256 substitutions, 256 insertions at
+		// every position) of signed / unsigned integer tokens with and without whitespace round
+		// them: every byte that can stand between the sign and the first digit, inside the
+		// digits, before and after the token
+		if e.enumStage("int-sweep", "every truncation, substitution (256) and insertion (256) at every position of 16 integer tokens (both signs, type bounds, whitespace before / after, terminators)", true) {
+			bases := []string{"-5", " -12", "\n-9223372036854775808]", "-0", "0", "18446744073709551615 ", "-2147483648,", " \t4294967295}", "-1e2", "12.5", "\r\n-7 ,8",
+				"- 5", "-\t\r\n 5", "2147483647", "-9223372036854775809", "  00"}
+			idx := 0
+		isw:
+			for _, bs := range bases {
+				idx++
+				if !e.cfg.Mine(idx) {
+					continue
+				}
+				ok := true
+				gen.Sweep([]byte(bs), func(x []byte) bool {
+					ok = run("int-sweep", x)
+					return ok
+				})
+				if !ok {
+					break isw
+				}
+			}
+		}
 		// 3. pool numbers and other tokens with every next byte
 		if e.enumStage("pool", "number pool and non-numeric tokens x 256 next bytes", true) {
 			toks := append([]string{}, gen.Nums...)
